@@ -678,6 +678,9 @@ pub fn suite(fname: &str, prop: &str, tier: &str, seed: u64) -> Report {
     rep.bound = bound;
     start_watchdog(30);
     rep.inputs = inputs.len() as u64;
+    if f.name == "btor2" && (prop == "all" || prop == "C03") {
+        btor2_values(&mut rep);
+    }
     for inp in &inputs {
         if inp.iter().any(|&b| b != b' ' && b != b'\n') {
             rep.nontrivial += 1;
@@ -687,6 +690,18 @@ pub fn suite(fname: &str, prop: &str, tier: &str, seed: u64) -> Report {
     rep
 }
 pub fn replay(fname: &str, prop: &str, args: &[String]) -> i32 {
+    if args[0] == "value" {
+        let mut rep = Report::new();
+        btor2_values(&mut rep);
+        let mut code = 0;
+        for x in &rep.failures {
+            if x.replay == args {
+                println!("FAILS {}: {}: {}", x.check, x.input, x.detail);
+                code = 1;
+            }
+        }
+        return code;
+    }
     let f = FORMATS.iter().find(|f| f.name == fname).expect("format");
     let input = unhex(&args[0]);
     let s = Sched::from_args(&args[1..]);
@@ -702,5 +717,51 @@ pub fn replay(fname: &str, prop: &str, args: &[String]) -> i32 {
         0
     } else {
         1
+    }
+}
+
+// ---------------------------------------------------------------- BTOR2 values built through the public constructors (C03, value domain)
+pub fn btor2_values(rep: &mut Report) {
+    use flussab_btor2::btor2::{BinaryConst, Const, DecimalConst, HexConst, Line, Node, NodeId, NodeVariant, Value, ValueVariant};
+    let f = FORMATS.iter().find(|f| f.name == "btor2").unwrap();
+    let alpha: [&str; 11] = ["0", "1", "9", "a", "f", "g", "A", "-", " ", "x", "7"];
+    let mut strings: Vec<String> = vec![String::new()];
+    let mut level: Vec<String> = vec![String::new()];
+    for _ in 0..3 {
+        let mut next = vec![];
+        for s in &level {
+            for a in alpha {
+                next.push(format!("{}{}", s, a));
+            }
+        }
+        strings.extend(next.iter().cloned());
+        level = next;
+    }
+    for s in &strings {
+        for kind in 0..3 {
+            let c: Option<Const> = match kind {
+                0 => BinaryConst::try_from(s.as_str()).ok().map(Const::Binary),
+                1 => HexConst::try_from(s.as_str()).ok().map(Const::Hex),
+                _ => DecimalConst::try_from(s.as_str()).ok().map(Const::Decimal),
+            };
+            let c = match c {
+                Some(c) => c,
+                None => continue,
+            };
+            let line = Line::Node(Node { id: NodeId::new(3), variant: NodeVariant::Value(Value { sort: NodeId::new(1), variant: ValueVariant::Const(c) }), symbol: None, comment: None });
+            let bytes = to_bytes(|w| line.write_into(w));
+            rep.inputs += 1;
+            rep.nontrivial += 1;
+            let o = run(f, &bytes, ONE_SHOT);
+            rep.runs += 1;
+            if o.end != End::Clean || o.items != vec![format!("{:?}", line)] {
+                rep.fail(
+                    "C03 parse(write(v)) == v for BTOR2 constants built through the public constructors",
+                    format!("{} constant {:?}", ["binary", "hex", "decimal"][kind], s),
+                    vec!["value".into(), kind.to_string(), s.clone()],
+                    format!("written as {:?}, parsed as {:?} {:?}", show(&bytes), o.items, o.end),
+                );
+            }
+        }
     }
 }
